@@ -48,6 +48,8 @@ func codeOf(e error) int {
 		return 4
 	case bfe_bufio.ErrNegativeCount:
 		return 5
+	case bfe_bufio.ErrInvalidUnreadRune:
+		return 8
 	case io.ErrShortWrite:
 		return 6
 	case errSink:
@@ -205,6 +207,26 @@ func execReader(capN int, srcS, opsS string) string {
 			}
 			line, e := b.ReadBytes(d[0])
 			r = fmt.Sprintf("%s.%d", vh.Hex(line), codeOf(e))
+		case "rS":
+			d, ok := vh.UnHex(f[1])
+			if !ok || len(d) != 1 {
+				return "bad-op"
+			}
+			line, e := b.ReadString(d[0])
+			r = fmt.Sprintf("%s.%d", vh.Hex([]byte(line)), codeOf(e))
+		case "rr":
+			ru, size, e := b.ReadRune()
+			r = fmt.Sprintf("%d.%d.%d", ru, size, codeOf(e))
+		case "ur":
+			r = strconv.Itoa(codeOf(b.UnreadRune()))
+		case "rst":
+			items, ok := parseScript(f[1])
+			if !ok {
+				return "bad-op"
+			}
+			src = &source{items: items}
+			b.Reset(src)
+			r = "rst"
 		case "rl":
 			line, pf, e := b.ReadLine()
 			p := 0
@@ -262,6 +284,21 @@ func execWriter(capN int, wsS, opsS string) string {
 			r = strconv.Itoa(codeOf(b.WriteByte(p[0])))
 		case "fl":
 			r = strconv.Itoa(codeOf(b.Flush()))
+		case "wr":
+			ru, err := strconv.Atoi(f[1])
+			if err != nil || ru < 0 || ru > 0x7fffffff {
+				return "bad-op"
+			}
+			n, e := b.WriteRune(rune(ru))
+			r = fmt.Sprintf("%d.%d", n, codeOf(e))
+		case "rst":
+			ws, ok := parseWScript(f[1])
+			if !ok {
+				return "bad-op"
+			}
+			sk = &sink{script: ws}
+			b.Reset(sk)
+			r = "rst"
 		case "rf":
 			items, ok := parseScript(f[1])
 			if !ok {
@@ -272,7 +309,7 @@ func execWriter(capN int, wsS, opsS string) string {
 		default:
 			return "bad-op"
 		}
-		res = append(res, fmt.Sprintf("%s|t%d|b%d|o%d", r, b.TotalWrite, b.Buffered(), len(sk.out)))
+		res = append(res, fmt.Sprintf("%s|t%d|b%d|o%d|a%d", r, b.TotalWrite, b.Buffered(), len(sk.out), b.Available()))
 	}
 	return strings.Join(res, ",") + ";out=" + vh.Hex(sk.out)
 }
@@ -309,7 +346,14 @@ func exec(op string) string {
 
 // text: line-structured bytes; line lengths cluster around the buffer size so that delimiters and
 // "\r\n" straddle refills and full buffers
+// valid 2/3/4-byte runes, and invalid sequences: bad lead bytes, truncated, overlong, surrogate, > U+10FFFF
+var runeSamples = [][]byte{
+	{0xc3, 0xa9}, {0xe2, 0x82, 0xac}, {0xf0, 0x9f, 0x98, 0x80}, {0xdf, 0xbf}, {0xef, 0xbf, 0xbd}, {0xf4, 0x8f, 0xbf, 0xbf},
+	{0xff}, {0xc0, 0x80}, {0xe2, 0x82}, {0xe0, 0x80, 0x80}, {0xed, 0xa0, 0x80}, {0xf4, 0x90, 0x80, 0x80}, {0x80}, {0xf0, 0x9f, 0x98},
+}
+
 func genText(r *vh.Rand, capN, total int) []byte {
+	runes := r.Chance(1, 2)
 	var out []byte
 	for len(out) < total {
 		var l int
@@ -329,6 +373,10 @@ func genText(r *vh.Rand, capN, total int) []byte {
 			c := byte('a' + r.Intn(6))
 			if r.Chance(1, 14) {
 				c = '\r'
+			}
+			if runes && r.Chance(1, 3) {
+				out = append(out, runeSamples[r.Intn(len(runeSamples))]...)
+				continue
 			}
 			out = append(out, c)
 		}
@@ -445,6 +493,25 @@ func genReader(r *vh.Rand) string {
 	for i := 0; i < nops; i++ {
 		k := r.Intn(100)
 		switch {
+		case k < 8:
+			ops = append(ops, "rr")
+			if r.Chance(1, 2) {
+				ops = append(ops, "ur")
+				if r.Chance(1, 4) {
+					ops = append(ops, "ur")
+				}
+			}
+			prevRead = true
+		case k < 10:
+			switch r.Intn(5) {
+			case 0, 1, 2:
+				ops = append(ops, "ur") // mostly after a non-ReadRune op: ErrInvalidUnreadRune
+			case 3:
+				ops = append(ops, "rS:0a")
+			default:
+				d2 := genText(r, eff, r.Range(0, 4*eff))
+				ops = append(ops, "rst:"+genChunks(r, d2, eff, true))
+			}
 		case k < 22:
 			var n int
 			switch r.Intn(6) {
@@ -562,8 +629,13 @@ func genWriter(r *vh.Rand) string {
 			ops = append(ops, "s:"+vh.Hex(mk(size())))
 		case k < 68:
 			ops = append(ops, "wb:"+vh.Hex(mk(1)))
-		case k < 80:
+		case k < 76:
 			ops = append(ops, "fl")
+		case k < 79:
+			ru := []int{0x41, 0x7f, 0x80, 0xe9, 0x7ff, 0x800, 0x20ac, 0xd800, 0xffff, 0x10000, 0x1f600, 0x10ffff, 0x110000}[r.Intn(13)]
+			ops = append(ops, fmt.Sprintf("wr:%d", ru))
+		case k < 80:
+			ops = append(ops, "rst:"+genWScript(r, capN))
 		default:
 			ops = append(ops, "rf:"+genChunks(r, mk(r.Range(0, 4*capN)), capN, true))
 		}
